@@ -1,0 +1,49 @@
+//go:build verif
+
+// Contracts for package compiler, read by the verification machinery in /verif.
+// This file contains no executable code; it is compiled only with -tags verif.
+package compiler
+
+/*@
+// package-level IR constants / runtime function handles: assigned once during set-up, never afterwards
+immutable g:compiler.zero g:compiler.ddp_runtime_error_irfun g:compiler.ddpint
+
+// err panics with a CompilerError ("Unerwarteter Fehler")
+func (*compiler).err
+  inline
+
+func (*compiler).createIfElse
+  inline
+
+// run-time value of field number index of the struct behind structPtr (list header fields: len, cap, arr)
+spec fieldDen(structPtr value.Value, index int) bv64
+
+// TRUSTED (two lines of code: getelementptr to the field, load): the loaded value is that field's value
+func (*compiler).loadStructField
+  trusted
+  modifies nothing
+  ensures ir.den(result) == fieldDen(structPtr, index)
+
+// ---- C06: the index check emitted for an assignable / reference list element ----
+// i = the user's 1-based index as a 64-bit value; len = the list's length field.
+// Claim: ddp_runtime_error is reached exactly when !(1 <= i <= len), for all 2^64 index values
+// (including the wrap-around of i-1 at the minimum), and the element address is computed
+// only under 0 <= i-1 < len.
+func (*compiler).evaluateAssignableOrReference [C06]
+  at L1 before call createIfElse
+  assume ir.den(zero) == bv64(0)
+  assume ir.isRuntimeErrorFn(ddp_runtime_error_irfun)
+  ensures [C06] reached(L1) && bvsge(fieldDen(lhs, list_len_field_index), bv64(0)) ==>
+            ($rterr == (at(L1, $rterr) ||
+               (at(L1, c.cbb.$guard) &&
+                !(bvsle(bv64(1), bvadd(ir.den(index), bv64(1))) && bvsle(bvadd(ir.den(index), bv64(1)), fieldDen(lhs, list_len_field_index))))))
+  ensures [C06] reached(L1) && bvsge(fieldDen(lhs, list_len_field_index), bv64(0)) ==>
+            ($gepGuard == (at(L1, c.cbb.$guard) &&
+                (bvsle(bv64(1), bvadd(ir.den(index), bv64(1))) && bvsle(bvadd(ir.den(index), bv64(1)), fieldDen(lhs, list_len_field_index)))))
+  ensures [C06] reached(L1) && bvsge(fieldDen(lhs, list_len_field_index), bv64(0)) && $gepGuard ==>
+            ($gepIdx == ir.den(index) && bvsle(bv64(0), $gepIdx) && bvslt($gepIdx, fieldDen(lhs, list_len_field_index)))
+  // after the check, code continues only on the in-range path
+  ensures [C06] reached(L1) && bvsge(fieldDen(lhs, list_len_field_index), bv64(0)) ==>
+            (c.cbb.$guard == (at(L1, c.cbb.$guard) &&
+                (bvsle(bv64(1), bvadd(ir.den(index), bv64(1))) && bvsle(bvadd(ir.den(index), bv64(1)), fieldDen(lhs, list_len_field_index)))))
+@*/
